@@ -155,6 +155,15 @@ class Executor(ExprMixin, StmtMixin, Engine):
     def ev_call(self, node, st):
         line = node.lineno
         f = node.func
+        if isinstance(f, ast.Attribute) and f.attr == 'group' and len(node.args) > 1 and not node.keywords \
+                and isinstance(f.value, ast.Name):
+            # m.group(a, b, ...) == (m.group(a), m.group(b), ...)   (re documentation)
+            tup = ast.Tuple(elts=[ast.Call(func=f, args=[a], keywords=[]) for a in node.args], ctx=ast.Load())
+            ast.copy_location(tup, node)
+            for e in tup.elts:
+                ast.copy_location(e, node)
+            yield from self.ev(tup, st)
+            return
         # --- builtins by bare name
         if isinstance(f, ast.Name) and f.id not in st.env:
             v = self.lookup_name(st, f.id)
@@ -742,6 +751,8 @@ class Executor(ExprMixin, StmtMixin, Engine):
         for j, e in enumerate(c.ensures):
             if '%s:post:%d' % (c.key.split(':')[1], j) in self.m.unassumed:
                 continue    # recorded as refuted on the callee (known finding): callers must not rely on it
+            if c.ghost_init and self.mentions_ghost(clause(e)[0], c):
+                continue    # a clause over the callee's ghost state says nothing a caller can use
             st.assume(self.spec(clause(e)[0], st, extra, old))
         # write back rebinding of list parameters
         states = [st]
@@ -752,6 +763,13 @@ class Executor(ExprMixin, StmtMixin, Engine):
             states = [s2 for s in states for s2 in self.assign(target, nv, s, line)]
         for s in states:
             yield s, res
+
+    def mentions_ghost(self, text, c):
+        try:
+            names = {n.id for n in ast.walk(ast.parse(text, mode='eval')) if isinstance(n, ast.Name)}
+        except SyntaxError:
+            return False
+        return bool(names & set(c.ghost_init))
 
     def arg_node(self, c, pn, node):
         if not isinstance(node, ast.Call):
